@@ -5,6 +5,7 @@ import BoltonsVerif.C10.DriverCorrect
 import BoltonsVerif.C10.Plain
 import BoltonsVerif.C10.Round
 import BoltonsVerif.C10.Pure
+import BoltonsVerif.C10.Inf
 /-
 C10 — property theorems (statements + short derivations from Proofs/Queue/Backends.lean)
 and non-vacuity examples.
@@ -562,6 +563,21 @@ theorem inf_standin_dominates :
     · decide +kernel
     · cases b <;> decide +kernel
 
+/-- histories with INFINITE priorities: running the queue on the stand-ins (`+-2^1100`, scaled by any
+    common power of two `2^K` that clears the denominators - the driver uses `2^maxExp`) returns exactly what
+    it returns under ANY interpretation `h` that orders the priorities like the extended reals do
+    (`EPrio.lt`: `-inf` below, `+inf` above every finite value, equal infinities tie) -/
+theorem infinite_priorities_sound {β : Type} {B : Backend T β} {wf : β → Prop}
+    {content : β → List (Entry T)} (L : Lawful B wf content) (ops : List (ROp T EPrio)) (K : Nat)
+    (hl : ∀ a ∈ ROp.prios ops, a.legal) (hK : ∀ a ∈ ROp.prios ops, a.standin.e ≤ K)
+    (h : EPrio → Int)
+    (hh : ∀ a ∈ ROp.prios ops, ∀ b ∈ ROp.prios ops, (h a < h b ↔ EPrio.lt a b)) :
+    (PQ.run B (ops.map (ROp.toOp (fun a => a.standin.scale K)))).2
+      = (PQ.run B (ops.map (ROp.toOp h))).2 := by
+  apply priorities_matter_only_by_order L
+  intro a ha b hb
+  rw [scale_exact K _ _ (hK a ha) (hK b hb), standin_lt_iff a b (hl a ha) (hl b hb), hh a ha b hb]
+
 /-- the conversion itself, on naturals and on ints -/
 theorem int_to_float_rounding_monotone :
     (∀ n m : Nat, n ≤ m → roundNat53 n ≤ roundNat53 m) ∧
@@ -679,6 +695,29 @@ def exRaw : List (ROp Nat Dy) :=
 example : maxExp exRaw = 1 := by decide
 example : (PQ.run (sortedBackend (fun _ => 2)) (normalize exRaw)).2.drop 6 =
     [.task 5, .task 6, .task 3, .task 4, .task 2, .task 1] := by decide +kernel
+/-- a history with both infinities, the largest double and `None`: hypotheses of `infinite_priorities_sound`
+    (with `K = 0`, `h` = ranks `0 < 1 < 2 < 3`) and its conclusion evaluated -/
+def exInf : List (ROp Nat EPrio) :=
+  [.add 1 (.fin ⟨(2 ^ 53 - 1) * 2 ^ 971, 0⟩), .add 2 .posInf, .add 3 .negInf, .add 4 (.fin ⟨0, 0⟩), .add 5 .posInf,
+   .pop none, .pop none, .pop none, .pop none, .pop none]
+
+example : (∀ a ∈ ROp.prios exInf, a.legal) ∧ (∀ a ∈ ROp.prios exInf, a.standin.e ≤ 0) := by
+  simp only [exInf, ROp.prios, List.mem_cons, List.not_mem_nil, or_false, forall_eq_or_imp, forall_eq]
+  decide +kernel
+
+/-- ranks `-inf -> 0`, `0 -> 1`, the largest double `-> 2`, `+inf -> 3` order `exInf`'s priorities like `EPrio.lt` -/
+def exRank : EPrio → Int
+  | .negInf => 0
+  | .fin d => if d.m = 0 then 1 else 2
+  | .posInf => 3
+
+example : ∀ a ∈ ROp.prios exInf, ∀ b ∈ ROp.prios exInf, (exRank a < exRank b ↔ EPrio.lt a b) := by
+  simp only [exInf, ROp.prios, List.mem_cons, List.not_mem_nil, or_false, forall_eq_or_imp, forall_eq]
+  decide +kernel
+
+example : (PQ.run (sortedBackend (fun _ => 2)) (exInf.map (ROp.toOp (fun a => a.standin.scale 0)))).2.drop 5
+    = [.task 2, .task 5, .task 1, .task 4, .task 3] := by decide +kernel
+
 /-- the largest finite double (2^53 - 1) * 2^971 meets the hypothesis of `inf_standin_dominates` -/
 example : (((2 ^ 53 - 1) * 2 ^ 971 : Int)).natAbs < 2 ^ 1024 * 2 ^ 0 ∧
     Dy.lt (PyPrio.float ((2 ^ 53 - 1) * 2 ^ 971) 0).eff ⟨2 ^ 1100, 0⟩ := by decide +kernel
